@@ -359,6 +359,22 @@ def to_smt(node):
     raise RxUnsupported("node %r" % (k,))
 
 
+def erase_groups(node, kept_idx, kept_names, inrep=False):
+    """The pattern with every capture group that a replacement template re-inserts (by index or name) replaced by the empty
+    string: what is left is the part of a match that the replacement does NOT put back.  A group under a repetition is not
+    erased (only its last iteration is re-inserted)."""
+    k = node[0]
+    if k == "group":
+        if not inrep and ((node[2] is not None and node[2] in kept_idx) or (node[3] is not None and node[3] in kept_names)):
+            return ("cat", [])
+        return ("group", erase_groups(node[1], kept_idx, kept_names, inrep), node[2], node[3])
+    if k in ("cat", "alt"):
+        return (k, [erase_groups(n, kept_idx, kept_names, inrep) for n in node[1]])
+    if k == "rep":
+        return ("rep", erase_groups(node[1], kept_idx, kept_names, inrep or node[3] != 1), node[2], node[3])
+    return node
+
+
 def split_anchors(ast):
     """Returns (anchored_start, anchored_end, ast_without_outer_anchors).  Only a leading ^ / trailing $ of a top-level
     concatenation (or of every top-level alternative) is supported."""
